@@ -236,6 +236,23 @@ def sinex_fields(fn_name: str) -> List[Tuple[str, int]]:
     return []
 
 
+def tms_parser_field_def() -> List[Tuple[str, str]]:
+    """`field_def` of SinexTmsParser.as_dataset: TIMESERIES/DATA column (lower case) -> dataset field it is stored as;
+    every key written in the source, in order"""
+    tree = parse_file(REPO / "midgard" / "parsers" / "sinex_tms.py")
+    out: List[Tuple[str, str]] = []
+    for n in ast.walk(tree):
+        if isinstance(n, ast.Assign) and len(n.targets) == 1 and isinstance(n.targets[0], ast.Name) \
+                and n.targets[0].id == "field_def" and isinstance(n.value, ast.Dict):
+            for k, v in zip(n.value.keys, n.value.values):
+                kk = const_tuple(k)
+                if isinstance(kk, str) and isinstance(v, ast.Call) and v.args:
+                    f = const_tuple(v.args[0])
+                    if isinstance(f, str):
+                        out.append((kk, f))
+    return out
+
+
 def sta_fields() -> List[Tuple[str, int, int]]:
     tree = parse_file(REPO / "midgard" / "parsers" / "bernese_sta.py")
     for n in ast.walk(tree):
@@ -383,6 +400,9 @@ def generate() -> Tuple[str, Dict[str, Any]]:
     o.append("/-- SinexField(name, start_col) of parsers/sinex_tms.py TIMESERIES/REF_COORDINATE -/\n"
              "def tmsRefCoordFields : List (String × Nat) := " + lean_list([f"({ls(a)}, {b})" for a, b in refc]) + "\n")
     o.append("def tmsColumnsFields : List (String × Nat) := " + lean_list([f"({ls(a)}, {b})" for a, b in cols]) + "\n")
+    o.append("/-- `field_def` of SinexTmsParser.as_dataset (parsers/sinex_tms.py): TIMESERIES/DATA column, lower case -> the\n"
+             "dataset field the column is stored as; every key written in the source, in order -/\n"
+             "def tmsParserFieldDef : List (String × String) := " + lean_list([f"({ls(a)}, {ls(b)})" for a, b in tms_parser_field_def()]) + "\n")
     o.append("/-- fixed columns of parsers/bernese_sta.py (TYPE 002); an open end is 100000 -/\n"
              "def staParserFields : List (String × Nat × Nat) := " + lean_list([f"({ls(a)}, {b}, {c})" for a, b, c in sta]) + "\n")
     o.append("/-- `plate_def` of writers/bernese_vel.py -/\n"
